@@ -146,6 +146,10 @@ func (evt *startEvent) Trigger(ctx context.Context) {
 	case <-evt.stopped:
 		// the loop has ended with its context while an event delivered to the instance
 		// still occupies the inbox: nobody would receive the start request any more
+	case <-ctx.Done():
+		// as above, and the loop is still busy reporting its cancellation: a sub-process
+		// activation that waits here does not read its trace subscription meanwhile, the
+		// tracer cannot deliver to it and the loop's report cannot get through
 	}
 }
 
